@@ -532,8 +532,10 @@ def check_body(val, pos: int, depth: int = 0) -> None:
             raise WireError('body', 'multipart without subtype string', pos)
         ext = val[i + 1:]
         if ext:
-            params = ext[0]
-            _check_params(params, pos)
+            # body-ext-mpart = body-fld-param [SP body-fld-dsp [SP
+            #                  body-fld-lang [SP body-fld-loc ...]]]
+            _check_params(ext[0], pos)
+            _check_ext_tail(ext[1:], pos)
         return
     if len(val) < 7:
         raise WireError('body', 'single part with %d < 7 fields' % len(val),
@@ -558,9 +560,43 @@ def check_body(val, pos: int, depth: int = 0) -> None:
         check_body(rest[1], pos, depth + 1)
         if not isinstance(rest[2], int):
             raise WireError('body', 'message/rfc822 lines not a number', pos)
+        ext = rest[3:]
     elif mtype.upper() == b'TEXT':
         if len(rest) < 1 or not isinstance(rest[0], int):
             raise WireError('body', 'text part without line count: %r' % (val[:9],), pos)
+        ext = rest[1:]
+    else:
+        ext = rest
+    if ext:
+        # body-ext-1part = body-fld-md5 [SP body-fld-dsp [SP body-fld-lang
+        #                  [SP body-fld-loc *(SP body-extension)]]]
+        if ext[0] is not None and not _is_str(ext[0]):
+            raise WireError('body', 'body-fld-md5 not an nstring: %r'
+                            % (ext[0],), pos)
+        _check_ext_tail(ext[1:], pos)
+
+
+def _check_ext_tail(tail, pos: int) -> None:
+    """[body-fld-dsp [body-fld-lang [body-fld-loc *body-extension]]]."""
+    if len(tail) >= 1 and tail[0] is not None:
+        dsp = tail[0]
+        # body-fld-dsp = "(" string SP body-fld-param ")" / nil
+        if not isinstance(dsp, list) or len(dsp) != 2 or \
+                not _is_str(dsp[0]):
+            raise WireError('body', 'body-fld-dsp not NIL or (string '
+                            'params): %r' % (dsp,), pos)
+        _check_params(dsp[1], pos)
+    if len(tail) >= 2 and tail[1] is not None:
+        lang = tail[1]
+        # body-fld-lang = nstring / "(" string *(SP string) ")"
+        if not _is_str(lang) and not (
+                isinstance(lang, list) and lang
+                and all(_is_str(x) for x in lang)):
+            raise WireError('body', 'body-fld-lang not an nstring or string '
+                            'list: %r' % (lang,), pos)
+    if len(tail) >= 3 and tail[2] is not None and not _is_str(tail[2]):
+        raise WireError('body', 'body-fld-loc not an nstring: %r'
+                        % (tail[2],), pos)
 
 
 def _check_params(params, pos: int) -> None:
